@@ -131,6 +131,7 @@ class CallMixin:
                 ln = self.index_value(args[1], st)
                 cap = self.index_value(args[2], st) if len(args) > 2 else ln
                 self.oblige(st, "safety", "make-len@%s" % self.site(e), z3.And(ln >= 0, ln <= cap, cap <= idx(MAXLEN)), e.get("ln"), "make: 0 <= len <= cap")
+                self.alloc_obligation(st, e, cap)
                 self.alloc_sites.append((e, cap, t.elem(), st.pc))
                 return self.alloc_slice(st, t.elem(), ln, cap)
             if u.k in ("chan", "map"):
@@ -177,6 +178,16 @@ class CallMixin:
             base = self.unsafe_ptr_slice(p)
             return SliceV(base.rid, base.off, n, n, self.T(e).elem())
         raise Unsupported("builtin " + str(b))
+
+    def alloc_obligation(self, st, e, count):
+        """Memory bound: every explicit allocation request (element count) stays within the `allocates` clause."""
+        c = self.cur_func.contract if self.cur_func is not None else None
+        if c is None or self.spec or self.call_depth > 0:
+            return
+        for cl in c.of("allocates"):
+            bound = self.eval_clause(cl, st, boolean=False)
+            self.oblige(st, "alloc", "request@%s:%s" % (self.site(e), cl["label"]), count <= bound, e.get("ln"),
+                        "allocation request bounded by %s" % cl["text"])
 
     def make_unsafe_ptr(self, sl):
         """Pointer to the first element of a slice/string.  A *T produced by unsafe.SliceData is an abstract id p with
